@@ -201,7 +201,7 @@ class RefSFTP:
         t = pkt[0]
         r = Rd(pkt, 1)
         if t == FXP['INIT']:
-            ext = b''.join(s(e) + s(b'1') for e in self.extensions)
+            ext = b''.join((s(e[0]) + s(e[1])) if isinstance(e, tuple) else (s(e) + s(b'1')) for e in self.extensions)
             self._send(bytes([FXP['VERSION']]) + u32(self.version) + ext)
             return
         rid = r.u32()
@@ -249,6 +249,13 @@ class RefSFTP:
 
     # ---- wire out
     def _send(self, payload):
+        # `mutate` (C10): a hostile server alters the reply it is about to send, or its length prefix
+        mut = getattr(self, 'mutate', None)
+        if mut is not None:
+            raw = mut(payload)
+            if raw is not None:
+                self.reader.feed(raw)
+                return
         self.reader.feed(u32(len(payload)) + payload)
 
     def status(self, rid, code, msg='x'):
@@ -403,6 +410,8 @@ class RefSFTP:
             ext = f['ext']
             if ext == b'limits@openssh.com':
                 self._send(bytes([FXP['EXTENDED_REPLY']]) + u32(rid) + u64(0) + u64(0) + u64(0) + u64(0))
+            elif ext == b'statvfs@openssh.com':
+                self._send(bytes([FXP['EXTENDED_REPLY']]) + u32(rid) + b''.join(u64(x) for x in (4096, 4096, 1000, 900, 800, 100, 90, 80, 0x1234, 1, 255)))
             elif ext == b'ranges@asyncssh.com':
                 r = Rd(f['rest'])
                 h = self.handles.get(r.s())
